@@ -66,7 +66,7 @@ def run(pid, suites, tier, seed):
         r['wall_s'] = time.time() - t0
         r['status'] = 'violated' if r.get('violations') else 'ok'
         out['suites'].append(r)
-        for v in r.get('violations', [])[:5]:
+        for v in r.get('violations', []):
             v = dict(v)
             v['suite'] = s
             out['violations'].append(v)
